@@ -251,6 +251,11 @@ def decMOp (j : Json) : Except String (MOp α) := do
       | .ok n => pure (KArg.name (← n.getStr?))
       | .error _ => do pure (KArg.num (← Codec.dec (α := α) (← (arg 3).getObjVal? "num")))
     return .createMassAction (← strs (arg 1)) (← strs (arg 2)) k
+  | "createDelayed" =>
+    let k ← match (arg 3).getObjVal? "name" with
+      | .ok n => pure (KArg.name (← n.getStr?))
+      | .error _ => do pure (KArg.num (← Codec.dec (α := α) (← (arg 3).getObjVal? "num")))
+    return .createDelayed (← strs (arg 1)) (← strs (arg 2)) k (← strs (arg 4)) (← (arg 5).getStr?)
   | "createRule" => return .createAdditiveRule (← (arg 1).getStr?) (← strs (arg 2))
   | "initialize" => return .initialize
   | t => throw s!"bad model op {t}"
